@@ -858,7 +858,41 @@ class Interp:
                 return AInt.boolean(f(va, vb))
             return AInt.boolean(None)
         bits = a.bits if isinstance(a, AFloat) else b.bits
+        # constant folding of IEEE arithmetic (singleton cells): Python floats are IEEE doubles, f32 results are re-rounded
+        if isinstance(a, AFloat) and isinstance(b, AFloat) and a.pat is not None and b.pat is not None and a.pat.is_const() and b.pat.is_const() \
+                and op in ('Add', 'Sub', 'Mul', 'Div'):
+            import struct
+            import math
+            fa, fb = self._pyfloat(a), self._pyfloat(b)
+            try:
+                if op == 'Add':
+                    r = fa + fb
+                elif op == 'Sub':
+                    r = fa - fb
+                elif op == 'Mul':
+                    r = fa * fb
+                else:
+                    if fb == 0:
+                        r = math.nan if (fa == 0 or fa != fa) else math.copysign(math.inf, fa) * math.copysign(1.0, fb)
+                    else:
+                        r = fa / fb
+            except OverflowError:
+                r = math.inf
+            if bits == 32:
+                try:
+                    pat = struct.unpack('<I', struct.pack('<f', r))[0]
+                except OverflowError:
+                    pat = struct.unpack('<I', struct.pack('<f', math.copysign(math.inf, r)))[0]
+            else:
+                pat = struct.unpack('<Q', struct.pack('<d', r))[0]
+            return AFloat(bits, AInt.const(bits, False, pat))
         return AFloat(bits, None)
+
+    def _pyfloat(self, f):
+        import struct
+        if f.bits == 32:
+            return struct.unpack('<f', struct.pack('<I', f.pat.uval()))[0]
+        return struct.unpack('<d', struct.pack('<Q', f.pat.uval()))[0]
 
     def _fconst(self, f):
         """exact value of a constant float as Fraction / +-inf as large sentinels / 'nan'"""
@@ -968,8 +1002,29 @@ class Interp:
         if kind.startswith('PointerCoercion'):
             return a
         if kind in ('IntToFloat',):
+            if isinstance(a, AInt) and a.is_const():
+                import struct
+                if t['bits'] == 32:
+                    try:
+                        pat = struct.unpack('<I', struct.pack('<f', float(a.lo)))[0]
+                    except OverflowError:
+                        pat = 0x7f800000 if a.lo > 0 else 0xff800000
+                else:
+                    pat = struct.unpack('<Q', struct.pack('<d', float(a.lo)))[0]
+                return AFloat(t['bits'], AInt.const(t['bits'], False, pat))
             return AFloat(t['bits'], None)
         if kind in ('FloatToInt',):
+            if isinstance(a, AFloat) and a.pat is not None and a.pat.is_const():
+                import math
+                f = self._pyfloat(a)
+                tmin, tmax = AInt.trange(t['bits'], t['signed'])
+                if f != f:
+                    v = 0
+                elif math.isinf(f):
+                    v = tmax if f > 0 else tmin
+                else:
+                    v = max(tmin, min(tmax, int(f)))      # `as` truncates toward zero and saturates
+                return AInt.const(t['bits'], t['signed'], v)
             return AInt.top(t['bits'], t['signed'])
         return self.top_of(tykey, frame.genv)
 
@@ -1727,6 +1782,27 @@ def _iter_enumerate(I, fr, t, path, rargs, args):
     return AIter('enum', a=it, lo=0) if it is not None else ATop('?')
 
 
+def _range_inclusive_contains(I, fr, t, path, rargs, args):
+    r = _deref_arg(I, args[0])
+    x = _deref_arg(I, args[1])
+    if isinstance(r, AAgg) and len(r.fields) >= 2:
+        lo, hi = r.fields[0], r.fields[1]
+        if isinstance(x, AFloat) or isinstance(lo, AFloat):
+            a = I.float_binop('Le', lo, x)
+            b = I.float_binop('Le', x, hi)
+        elif isinstance(x, AInt) and isinstance(lo, AInt) and isinstance(hi, AInt):
+            a = aval.cmp('Le', lo, x)
+            b = aval.cmp('Le', x, hi)
+        else:
+            return AInt.boolean(None)
+        return I.bool_op('BitAnd', a, b)
+    return AInt.boolean(None)
+
+
+def _range_inclusive_new(I, fr, t, path, rargs, args):
+    return AAgg('core::ops::RangeInclusive', [args[0], args[1], AInt.boolean(False)])
+
+
 def _option_unwrap(I, fr, t, path, rargs, args):
     a = args[0]
     if isinstance(a, AAgg) and a.ty == 'core::option::Option':
@@ -1751,6 +1827,8 @@ INTRINSICS = {
     "<core::iter::Enumerate<I> as core::iter::Iterator>::next": _iter_next,
     "core::iter::range::<impl core::iter::Iterator for core::ops::Range<A>>::next": _iter_next,
     "core::option::Option::<T>::unwrap": _option_unwrap,
+    "core::ops::RangeInclusive::<Idx>::contains": _range_inclusive_contains,
+    "core::ops::RangeInclusive::<Idx>::new": _range_inclusive_new,
     'core::cmp::PartialOrd::lt': _cmp_method('Lt'),
     'core::cmp::PartialOrd::le': _cmp_method('Le'),
     'core::cmp::PartialOrd::gt': _cmp_method('Gt'),
